@@ -9,7 +9,9 @@ A *case* is a JSON-able dict
   cmd      "scan" | "get_match" | "delete_match"
   pattern  text
   mode     "fast"|"locked"|"serializable"        (tx; optional for invalidate = call inside a transaction)
-  txops    [["set", text, valtok, ttl|None] | ["del", text], ...]   commands issued inside the transaction
+  txops    [["set", text, valtok, ttl|None] | ["del", text] | ["delmatch"|"scan"|"getmatch", pattern|None], ...]
+           commands issued inside the transaction before the judged pattern command: writes AND earlier pattern commands
+           (pattern None = the case's own pattern, so "the identical pattern again" survives shrinking of the pattern)
   txadv    ticks advanced inside the transaction before the pattern command (crosses no deadline)
   template [["lit", text] | ["arg", name], ...], args {name: text}   (invalidate; pattern = the substitution)
 
@@ -136,15 +138,27 @@ def all_strings(alphabet: str, maxlen: int) -> list[str]:
     return out
 
 
+PATTERN_OPS = ("delmatch", "scan", "getmatch")
+
+
 def universe(case: dict) -> list[str]:
     u: list[str] = []
     for k in case["keys"]:
         if k[0] not in u:
             u.append(k[0])
     for op in case.get("txops") or []:
-        if op[1] not in u:
+        if op[0] not in PATTERN_OPS and op[1] not in u:
             u.append(op[1])
     return u
+
+
+def op_pattern(case: dict, op) -> str:
+    """the pattern of a pattern command among the txops (None = the case's own pattern)"""
+    return pattern_of(case) if op[1] is None else op[1]
+
+
+def all_patterns(case: dict) -> list[str]:
+    return [pattern_of(case)] + [op_pattern(case, op) for op in case.get("txops") or [] if op[0] in PATTERN_OPS]
 
 
 def pattern_of(case: dict) -> str:
@@ -164,11 +178,11 @@ def reaches_reserved(case: dict) -> bool:
     """the property's proviso: in the locking modes a pattern must not reach the ':'-prefixed lock keys the
     transaction itself writes into the store"""
     mode = case.get("mode")
-    pat = pattern_of(case)
-    if mode == "locked":
-        return any(pyglob(pat, f":tx_lock:{k}") for k in universe(case))
-    if mode == "serializable":
-        return pyglob(pat, ":serializable:lock")
+    for pat in all_patterns(case):
+        if mode == "locked" and any(pyglob(pat, f":tx_lock:{k}") for k in universe(case)):
+            return True
+        if mode == "serializable" and pyglob(pat, ":serializable:lock"):
+            return True
     return False
 
 
@@ -176,7 +190,7 @@ def well_formed(case: dict) -> bool:
     texts = universe(case)
     if any(t.startswith(RESERVED) for t in texts):
         return False
-    if any(c in EXCLUDED for t in texts + [pattern_of(case)] for c in t):
+    if any(c in EXCLUDED for t in texts + all_patterns(case) for c in t):
         return False
     if any(op[0] == "set" and is_bits(op[2]) for op in case.get("txops") or []):
         return False        # a transaction cannot buffer a bit field (incr_bits is proxied to the backend)
@@ -211,6 +225,8 @@ def model_lines(case: dict) -> list[str]:
         for op in case.get("txops") or []:
             if op[0] == "set":
                 lines.append(f"txset {idx[op[1]]} {op[2]} {'-' if op[3] is None else op[3]}")
+            elif op[0] in PATTERN_OPS:
+                lines.append(f"tx{'delmatch' if op[0] == 'delmatch' else op[0]} {enc(op_pattern(case, op))}")
             else:
                 lines.append(f"txdel {idx[op[1]]}")
         if case.get("txadv"):
@@ -310,6 +326,12 @@ async def _txops(api, case: dict):
     for op in case.get("txops") or []:
         if op[0] == "set":
             await api.set(op[1], val_of(op[2]), expire=None if op[3] is None else op[3] / 8)
+        elif op[0] == "delmatch":
+            await api.delete_match(op_pattern(case, op))
+        elif op[0] == "scan":
+            [k async for k in api.scan(op_pattern(case, op))]
+        elif op[0] == "getmatch":
+            [kv async for kv in api.get_match(op_pattern(case, op))]
         else:
             await api.delete(op[1])
     CLOCK.advance(case.get("txadv", 0))
@@ -591,6 +613,12 @@ def gen_small(rng, kind: str, alphabet: str = FULL_ALPHABET, maxpat: int = 8, mo
                 ops += [["del", t], ["set", t, rand_val(rng, False), None]]
             else:
                 ops += [["set", t, rand_val(rng, False), None], ["del", t]]
+        if rng.random() < 0.4:
+            # earlier pattern commands between the writes: the identical pattern (None), or another one
+            for _ in range(rng.randint(1, 2)):
+                what = rng.choice(["delmatch", "delmatch", "delmatch", "scan", "getmatch"])
+                other = rng.choice([None, None, rand_pattern(rng, alphabet, maxpat), pat[:-1] + "*", "*"])
+                ops.insert(rng.randint(0, len(ops)), [what, other])
         case["txops"] = ops
         case["txadv"] = rng.choice([0, 0, 4])
         if rng.random() < 0.3:
@@ -662,6 +690,33 @@ def split_case(rng, texts: list[str], placement: list[str], pattern: str, cmd: s
     return {"kind": "tx", "mode": mode, "keys": keys, "adv": adv, "txops": ops, "txadv": 0, "cmd": cmd, "pattern": pattern}
 
 
+MULTI_FIRST = [["delmatch", None], ["delmatch", "a.b*"], ["delmatch", "*b"], ["scan", None], ["getmatch", None]]
+
+
+def multi_space():
+    """(placement of the three keys, earlier pattern command, write in between, judged command, its pattern)"""
+    texts = ["a.b", "a.c", "axb"]
+    for pl in itertools.product(["S", "A", "X"], repeat=3):
+        for first in MULTI_FIRST:
+            for t in texts:
+                for w in (["set", t, "t:2", None], ["set", t, "t:2", 80], ["del", t]):
+                    for cmd in ("scan", "get_match", "delete_match"):
+                        for pat in ("a.*", "a.b*"):
+                            yield pl, first, w, cmd, pat
+
+
+def multi_case(pl, first, w, cmd, pat, mode: str) -> dict:
+    """pattern command, write, pattern command again - inside one transaction"""
+    texts = ["a.b", "a.c", "axb"]
+    keys = []
+    for t, p in zip(texts, pl):
+        if p == "S":
+            keys.append([t, None, "t:1"])
+        elif p == "X":
+            keys.append([t, 8, "t:1"])
+    return {"kind": "tx", "mode": mode, "keys": keys, "adv": 16, "txops": [list(first), list(w)], "txadv": 0, "cmd": cmd, "pattern": pat}
+
+
 def value_grid() -> list[tuple[str, dict]]:
     """Every value of the alphabet in every position a pattern command can meet it (fully enumerated, no randomness).
     One subject key 'a.b' (matches 'a.*') next to a matching bystander 'a.c' with an ordinary value and a
@@ -714,15 +769,50 @@ def interesting(case: dict) -> list[str]:
     if "*" in pat and sel and len(sel) < len(live):
         tags.append("wildcard_splits_the_live_keys")
     ops = case.get("txops") or []
+    cmd = "delete_match" if case["kind"] == "invalidate" else case["cmd"]
     if ops:
         written, deleted = {}, set()
+        earlier: list[str] = []           # patterns of the delete_match calls so far
+        marked: dict[str, set] = {}       # pattern -> live store keys an earlier delete_match(pattern) marked
+        rewritten: dict[str, bool] = {}   # pattern -> a key it marked has been written again since
+        write_since_pattern_cmd = False
         for op in ops:
             if op[0] == "set":
                 written[op[1]] = True
                 deleted.discard(op[1])
+                for p_, ks in marked.items():
+                    if op[1] in ks:
+                        rewritten[p_] = True
+                write_since_pattern_cmd = bool(earlier) or write_since_pattern_cmd
+            elif op[0] == "delmatch":
+                p_ = op_pattern(case, op)
+                if p_ in earlier:
+                    tags.append("tx_delete_match_repeated_with_the_identical_pattern")
+                    if rewritten.get(p_):
+                        tags.append("tx_identical_delete_match_after_a_marked_store_key_was_written_again")
+                    rewritten[p_] = False
+                elif earlier:
+                    tags.append("tx_delete_match_after_a_different_pattern")
+                earlier.append(p_)
+                marked.setdefault(p_, set()).update(k for k in live if pyglob(p_, k))
+                for k in [k for k in written if pyglob(p_, k)]:
+                    written.pop(k)
+                deleted.update(k for k in live if pyglob(p_, k))
+                write_since_pattern_cmd = False
+            elif op[0] in PATTERN_OPS:
+                tags.append("tx_earlier_read_by_pattern")
             else:
                 written.pop(op[1], None)
                 deleted.add(op[1])
+                write_since_pattern_cmd = bool(earlier) or write_since_pattern_cmd
+        if earlier:
+            tags.append("tx_pattern_command_after_an_earlier_delete_match")
+            if write_since_pattern_cmd:
+                tags.append("tx_delete_match_then_write_then_pattern_command")
+            if cmd == "delete_match" and pat in earlier:
+                tags.append("tx_delete_match_repeated_with_the_identical_pattern")
+                if rewritten.get(pat):
+                    tags.append("tx_identical_delete_match_after_a_marked_store_key_was_written_again")
         if any(k in live and pyglob(pat, k) for k in deleted):
             tags.append("tx_pending_delete_of_a_matching_store_key")
         if any(k in live and pyglob(pat, k) for k in written):
@@ -737,9 +827,11 @@ def interesting(case: dict) -> list[str]:
     for op in ops:
         if op[0] == "set":
             visible[op[1]] = op[2]
-        else:
+        elif op[0] == "delmatch":
+            for k in [k for k in visible if pyglob(op_pattern(case, op), k)]:
+                visible.pop(k)
+        elif op[0] not in PATTERN_OPS:
             visible.pop(op[1], None)
-    cmd = "delete_match" if case["kind"] == "invalidate" else case["cmd"]
     hit = {k: v for k, v in visible.items() if pyglob(pat, k)}
     if any(is_bits(v) for v in hit.values()):
         tags.append("matching_key_holds_a_bit_field")
